@@ -104,8 +104,16 @@ def run_config(ps, M, shim, native_root=None, enc=None, diag=True):
     src0 = put("o0", script[0][2])
     script = [tuple(src0 if x == "<PATH-OF-SOURCE-0>" else x for x in op) for op in script]
     d_arg, w_arg = depth, width
+    if enc == "by-config":
+        # depth and / or width supplied as integer-like strings for some configurations (the configuration file
+        # records integers all the same)
+        enc = ["int", "str", "str-depth", "str-width"][(depth + 2 * width + ALGOS.index(algo)) % 4]
     if enc == "str":
         d_arg, w_arg = str(depth), str(width)
+    elif enc == "str-depth":
+        d_arg = str(depth)
+    elif enc == "str-width":
+        w_arg = str(width)
     try:
         s = M.FileHashStore(dict(store_path=root, store_depth=d_arg, store_width=w_arg, store_algorithm=algo,
                                  store_metadata_namespace=ns))
@@ -177,7 +185,7 @@ def e2(run, tier):
         hist = []
 
         def one(p):
-            r = run_config(p, M, shim, diag=tier != "thorough")
+            r = run_config(p, M, shim, diag=tier != "thorough", enc="by-config")
             hist.append((r["depth"], r["width"], r["algo"], NSLIST.index(r["ns"])))
             r["history"] = list(hist)
             return r
@@ -209,7 +217,8 @@ def replay_tree(payload):
         for h in payload.get("history") or [(payload["depth"], payload["width"], payload["algo"])]:
             d, w_, a = h[:3]
             pins = [DV == d, WV == w_, AV == ALGOS.index(a)] + ([NSV == h[3]] if len(h) > 3 else [])
-            r = PathSym(pins).explore(lambda p: run_config(p, MN, None, native_root=root, diag=len(h) <= 3))[0]
+            r = PathSym(pins).explore(lambda p: run_config(p, MN, None, native_root=root, diag=len(h) <= 3,
+                                                           enc="by-config"))[0]
         return bool(r["bad"]), ("native run (unpatched code, real file system) of the script under depth=%d width=%d %s "
                                 "after %d earlier stores in the same process: %s" % (
                                     r["depth"], r["width"], r["algo"], len(payload.get("history") or [1]) - 1, r["bad"]))
